@@ -289,6 +289,15 @@ func c13SendersFor(c *Ctx, rule string) {
 	fl := NewFlow(p, qf)
 	var bad []string
 	n := 0
+	// the compared hash is filled from the request
+	copiedHere := false
+	eachInstr(qf, func(in ssa.Instruction) {
+		if call, ok := in.(*ssa.Call); ok {
+			if b, ok := call.Call.Value.(*ssa.Builtin); ok && b.Name() == "copy" && strings.Contains(fl.K.Key(call.Call.Args[1]), "BlockHash).GetHash(p1)") {
+				copiedHere = true
+			}
+		}
+	})
 	for _, r := range returnsOf(qf) {
 		if !fl.Reachable(r.Block()) || isBoolConst(retValue(r, 1), false) {
 			continue
@@ -296,10 +305,31 @@ func c13SendersFor(c *Ctx, rule string) {
 		n++
 		bk := fl.K.Key(retValue(r, 0))
 		facts := fl.At(r)
-		// h == BlockFromProto(b).Hash() where h is copied from in.GetHash()
-		ok := hasCmp(facts, "==", func(k string) bool {
-			return strings.HasPrefix(k, "*alloc@") || strings.HasPrefix(k, "alloc@") || strings.Contains(k, "&[")
-		},
+		// h == BlockFromProto(b).Hash() where h is filled from in.GetHash() (in place, or by a
+		// private helper of the package that returns the converted hash)
+		fromRequest := func(k string) bool {
+			if strings.HasPrefix(k, "*alloc@") || strings.HasPrefix(k, "alloc@") || strings.Contains(k, "&[") {
+				return copiedHere
+			}
+			found := false
+			sliceEnterHelpers, sliceProg = funcPkgPath(qf), p
+			eachInstr(qf, func(in ssa.Instruction) {
+				v, isVal := in.(ssa.Value)
+				if !isVal || found || fl.K.Key(v) != k {
+					return
+				}
+				found = backwardSlice(v, func(x ssa.Value) bool {
+					call, ok := x.(*ssa.Call)
+					if !ok || call.Call.StaticCallee() == nil || !strings.HasSuffix(call.Call.StaticCallee().String(), "BlockHash).GetHash") || len(call.Call.Args) == 0 {
+						return false
+					}
+					return backwardSlice(call.Call.Args[0], func(y ssa.Value) bool { return len(qf.Params) > 1 && y == qf.Params[1] })
+				})
+			})
+			sliceEnterHelpers, sliceProg = "", nil
+			return found
+		}
+		ok := hasCmp(facts, "==", fromRequest,
 			func(k string) bool {
 				return strings.HasPrefix(k, kBlockHash+"hs/internal/proto/hotstuffpb.BlockFromProto("+bk+")")
 			})
@@ -307,17 +337,8 @@ func c13SendersFor(c *Ctx, rule string) {
 			bad = append(bad, p.Pos(r.Pos())+" returns "+bk+"; facts: "+join(facts.Sorted()))
 		}
 	}
-	// the compared hash is filled from the request
-	copied := false
-	eachInstr(qf, func(in ssa.Instruction) {
-		if call, ok := in.(*ssa.Call); ok {
-			if b, ok := call.Call.Value.(*ssa.Builtin); ok && b.Name() == "copy" && strings.Contains(fl.K.Key(call.Call.Args[1]), "BlockHash).GetHash(p1)") {
-				copied = true
-			}
-		}
-	})
-	c.Check(len(bad) == 0 && n > 0 && copied, rule, "qspec.RequestBlockQF: reply accepted only if its hash is the requested one", p.FuncPos(qf),
-		"(b, true) is returned only under h == BlockFromProto(b).Hash(), h copied from the request", "request hash copied: "+boolStr(copied)+"; "+join(bad))
+	c.Check(len(bad) == 0 && n > 0, rule, "qspec.RequestBlockQF: reply accepted only if its hash is the requested one", p.FuncPos(qf),
+		"(b, true) is returned only under h == BlockFromProto(b).Hash(), h copied from the request", "request hash copied in place: "+boolStr(copiedHere)+"; "+join(bad))
 	_ = types.Typ
 }
 
@@ -341,47 +362,91 @@ func c13Prune(c *Ctx, prune *ssa.Function) {
 	}
 	for _, ap := range appends {
 		facts := fl.At(ap)
-		// local maps consulted by the guarding conditions
+		// exemption sets consulted by the guarding conditions: maps built in PruneToHeight, or built
+		// and returned by a private helper of the package (the part of the function that walks the
+		// committed chain may live in a constructor)
 		maps := map[string]ssa.Value{}
-		for f := range facts {
-			for _, s := range []string{f.L, f.R} {
-				if i := strings.Index(s, "make@"); i >= 0 {
-					id := s[i:]
-					if j := strings.IndexAny(id, "[)] ,#"); j > 0 {
-						id = id[:j]
-					}
-					eachInstr(prune, func(in ssa.Instruction) {
-						if mm, ok := in.(*ssa.MakeMap); ok && fl.K.Key(mm) == id {
-							maps[id] = mm
-						}
-					})
+		builtIn := map[string]*ssa.Function{}
+		consulted := func(key string) bool {
+			for f := range facts {
+				if strings.Contains(f.L, key) || strings.Contains(f.R, key) {
+					return true
 				}
 			}
+			return false
 		}
+		eachInstr(prune, func(in ssa.Instruction) {
+			switch x := in.(type) {
+			case *ssa.MakeMap:
+				if k := fl.K.Key(x); consulted(k) {
+					maps[k] = x
+				}
+			case *ssa.Call:
+				cal := x.Call.StaticCallee()
+				if cal == nil || cal.Blocks == nil || cal.Object() == nil || cal.Object().Exported() || funcPkgPath(cal) != funcPkgPath(prune) {
+					return
+				}
+				if _, isMap := x.Type().Underlying().(*types.Map); !isMap {
+					return
+				}
+				var mk *ssa.MakeMap
+				for _, r := range returnsOf(cal) {
+					m, ok := retValue(r, 0).(*ssa.MakeMap)
+					if !ok || (mk != nil && mk != m) {
+						return
+					}
+					mk = m
+				}
+				if k := fl.K.Key(x); mk != nil && consulted(k) {
+					maps[k] = mk
+					builtIn[k] = cal
+				}
+			}
+		})
 		if len(maps) == 0 {
 			c.Undecided("C13.4", "PruneToHeight: committed-chain exemption", p.InstrPos(ap), "the decision to report a block does not consult a locally built exemption set; idiom not recognised")
 			continue
 		}
 		var tainted []string
 		nUpd := 0
-		eachInstr(prune, func(in ssa.Instruction) {
-			mu, ok := in.(*ssa.MapUpdate)
-			if !ok {
-				return
+		sliceEnterHelpers, sliceProg = funcPkgPath(prune), p
+		for mk0, mv := range maps {
+			host := prune
+			if h := builtIn[mk0]; h != nil {
+				host = h
 			}
-			if _, isEx := maps[fl.K.Key(mu.Map)]; !isEx {
-				return
+			hk := fl.K
+			if host != prune {
+				hk = NewKeyer(p, host)
 			}
-			nUpd++
-			for _, v := range []ssa.Value{mu.Key, mu.Value} {
-				if backwardSlice(v, func(x ssa.Value) bool {
-					lk, ok := x.(*ssa.Lookup)
-					return ok && strings.HasSuffix(fl.K.Key(lk.X), kBC+"blockAtHeight")
-				}) {
-					tainted = append(tainted, p.InstrPos(mu)+": "+fl.K.Key(mu.Map)+"["+shortVal(fl.K.Key(mu.Key))+"]")
+			eachInstr(host, func(in ssa.Instruction) {
+				mu, ok := in.(*ssa.MapUpdate)
+				if !ok {
+					return
 				}
-			}
-		})
+				if host == prune && hk.Key(mu.Map) != mk0 {
+					return
+				}
+				if host != prune && mu.Map != mv {
+					return
+				}
+				nUpd++
+				for _, v := range []ssa.Value{mu.Key, mu.Value} {
+					if backwardSlice(v, func(x ssa.Value) bool {
+						// any read of the per-view index (in PruneToHeight or, through a parameter, in the helper)
+						if ld, ok := x.(*ssa.UnOp); ok {
+							if a, ok := ld.X.(*ssa.FieldAddr); ok {
+								return fieldName(a.X.Type(), a.Field) == kBC+"blockAtHeight"
+							}
+						}
+						return false
+					}) {
+						tainted = append(tainted, p.InstrPos(mu)+": "+hk.Key(mu.Map)+"["+shortVal(hk.Key(mu.Key))+"]")
+					}
+				}
+			})
+		}
+		sliceEnterHelpers, sliceProg = "", nil
 		c.Check(len(tainted) == 0 && nUpd > 0, "C13.4", "PruneToHeight: committed chain derived by hash links only", p.InstrPos(ap),
 			"the "+itoa(nUpd)+" update(s) of the exemption set do not depend on the per-view index blockAtHeight",
 			"the set of committed views is computed through blockAtHeight, which holds one block per view and is overwritten under equivocation: a committed block can be reported as abandoned ("+join(tainted)+")")
